@@ -175,6 +175,56 @@ func runActionCheck(r *core.Run, sp *ActionSpec) {
 			}
 		}
 	})
+	if os.Getenv("VERIF_DEBUG") != "" {
+		A := func(act, t string, k int) Action { return Action{"act": act, "t": t, "k": k, "x": 0, "u": ""} }
+		if len(behs) > 0 {
+			hs := []Action{A("select", "f1", 0), A("env", "f1", 0), A("update", "f1", 0), A("select", "f1", 0)}
+			fmt.Fprintf(os.Stderr, "DEBUG fixed history: %v\n", runHistory(r, sp, behs[0].init, hs))
+		}
+		np := 0
+		for _, b := range behs {
+			st := 0
+			for k, a := range b.acts {
+				n, t := actName(a), aStr(a, "t")
+				switch {
+				case st == 0 && n == "select" && t == "f1":
+					st = 1
+				case st == 1 && n == "env" && t == "f1" && b.exps[k].K == "ok":
+					st = 2
+				case st == 2 && n == "update" && t == "f1":
+					st = 3
+					if np < 3 {
+						fmt.Fprintf(os.Stderr, "DEBUG pattern at %d: exp %s acts %s\n", k, b.exps[k], core.JSON(b.acts[:k+1]))
+					}
+				case n == "commit" || n == "rollback":
+					st = 0
+				}
+			}
+			if st == 3 {
+				np++
+			}
+		}
+		fmt.Fprintf(os.Stderr, "DEBUG behaviours with select-env-update on f1: %d\n", np)
+		ne, nlen := 0, map[int]int{}
+		for _, b := range behs {
+			nlen[len(b.acts)]++
+			for k, a := range b.acts {
+				if actName(a) == "env" && b.exps[k].K == "ok" {
+					ne++
+					break
+				}
+			}
+		}
+		fmt.Fprintf(os.Stderr, "DEBUG behaviours with a successful env: %d; lengths %v\n", ne, nlen)
+		nm := 0
+		for _, m := range results {
+			if m != nil {
+				nm++
+				fmt.Fprintf(os.Stderr, "DEBUG mismatch step %d %s exp %s obs %s\n", m.i+1, core.JSON(m.b.acts[m.i]), m.b.exps[m.i], m.obs)
+			}
+		}
+		fmt.Fprintf(os.Stderr, "DEBUG behaviours %d mismatches %d stopped-early %v\n", len(behs), nm, atomic.LoadInt32(&nmism) > 60)
+	}
 	reported := map[string]bool{}
 	unrep := 0
 	for i, m := range results {
